@@ -22,6 +22,7 @@ RULE = ("Model level: Hypothesis draws a template and a sub-volume class (noise 
         "tomogram; each molecule's displacement expressed in its own input frame must be within max_shifts and the "
         "align-d? features within max_shifts(nm)+0.005. Enumerated: max_shifts normalisation over scalar/sequence "
         "types. Non-trivial = limit off the 0.05 grid, < 0.75 px, 0, or a boundary peak.")
+RULE += (" " + 'Also: float64 ndarray limits at loader level and a second call with the same limits object, which must stay unmodified.')
 TOLERANCES = {"bound": "1e-4 px (model level), 2e-3 px (loader level, float32 positions)", "features": "max_shifts(nm) + 0.005 (rounded to 2 decimals)"}
 ASSUMPTIONS = ["FSC is limited to max_shifts <= 3 px and boxes <= 10 (its landscape is a triple Python loop)",
                "rotation sets contain the identity"]
